@@ -126,7 +126,18 @@ def strategy(draw, tier="quick"):
     op = draw(st.sampled_from(["stride", "stride", "frame", "iterload", "iterload", "iterload", "list"]))
     case = {"fmt": fmt, "nf": nf, "na": na, "cell": cell, "seed": draw(st.integers(0, 3)), "op": op}
     if draw(st.booleans()) and op != "list":
-        case["atoms"] = sorted(set(draw(st.lists(st.integers(0, na - 1), min_size=1, max_size=na))))
+        if na >= 7 and draw(st.integers(0, 2)) == 0:
+            # almost-regular subsets: an arithmetic progression with one interior element moved by one - the shapes a
+            # "turn the index array into a slice" shortcut gets wrong
+            g = draw(st.integers(1, 3))
+            first = draw(st.integers(0, 2))
+            prog = list(range(first, na, g))[:draw(st.integers(3, 6))]
+            if len(prog) >= 3 and g >= 2:
+                k = draw(st.integers(1, len(prog) - 2))
+                prog[k] += draw(st.sampled_from([-1, 1]))
+            case["atoms"] = sorted(set(a for a in prog if 0 <= a < na))
+        else:
+            case["atoms"] = sorted(set(draw(st.lists(st.integers(0, na - 1), min_size=1, max_size=na))))
     if op in ("stride", "iterload", "list"):
         case["stride"] = draw(st.integers(1, 5))
     if op == "frame":
